@@ -12,9 +12,25 @@ REPLAYS = os.path.join(ROOT, "replays")
 ALLOWED_AXIOMS = {"propext", "Classical.choice", "Quot.sound"}
 GUARD = "verif"
 
+GOCACHE_DIR = os.environ.get("VERIF_GOCACHE") or os.path.join(CACHE, "gocache")
+GOCACHE_LIMIT_KB = 6 * 1024 * 1024
+
+def trim_gocache():
+    """every check compiles freshly rendered scratch packages, which the Go build cache keeps for days: the checks use
+    their own build cache under .cache/ and drop it when it has grown past a few GB (disk space is limited)"""
+    try:
+        out = subprocess.run(["du", "-sk", GOCACHE_DIR], stdout=subprocess.PIPE, stderr=subprocess.DEVNULL, text=True, timeout=120).stdout
+        kb = int(out.split()[0]) if out.split() else 0
+    except Exception:
+        kb = 0
+    if kb > GOCACHE_LIMIT_KB:
+        with Lock("gocache"):
+            shutil.rmtree(GOCACHE_DIR, ignore_errors=True)
+    os.makedirs(GOCACHE_DIR, exist_ok=True)
+
 def env(extra=None):
     e = dict(os.environ)
-    e.update({"GOPROXY": "off"})
+    e.update({"GOPROXY": "off", "GOCACHE": GOCACHE_DIR})
     e.pop("GOFLAGS", None)
     if extra:
         e.update(extra)
@@ -109,6 +125,7 @@ def ensure_tools():
 
 def ensure_repo_build():
     """CLI and verif-tagged test drivers built from /repo's current working tree; cached by tree hash"""
+    trim_gocache()
     rh = repo_hash() + "-" + tools_hash()[:8]        # the regenerated facts depend on factgen as well
     d = os.path.join(CACHE, "repo-" + rh)
     if os.path.exists(os.path.join(d, "ok")):
